@@ -296,6 +296,7 @@ void harness::run_case(const eng::Raw& raw, eng::Ctx& ctx)
 		gen::Limits lim;
 		lim.maxStates = ctx.tier() ? 5 : 4;
 		lim.arity3 = true;
+		lim.fanoutEvery = 8;
 		const std::vector<int> w = {4, 2, 3, 3, 1, 1, 1};
 		gen::PairCase c = gen::decode_pair(raw, lim, w);
 		// a third automaton for the chains: B with the rules of A added under disjoint numbers is built by the library (Union)
